@@ -33,5 +33,8 @@ func newJoinPromise(tx hashgraph.InternalTransaction) *joinPromise {
 
 // respond handles sending a joinPromiseResponse to a joinPromise
 func (p *joinPromise) respond(accepted bool, acceptedRound int, peers []*peers.Peer) {
+	if simDeferRespond(p, accepted, acceptedRound, peers) {
+		return
+	}
 	p.respCh <- joinPromiseResponse{accepted, acceptedRound, peers}
 }
